@@ -123,14 +123,14 @@ func (z *Renderer) SetNSel(nSel uint8) {
 func (z *Renderer) SetCReg(adj uint8, incr bool, c ivg.Color) {
 	z.cReg[(z.cSel-adj)&0x3f] = c.Resolve(&z.palette, &z.cReg)
 	if incr {
-		z.cSel++
+		z.cSel = (z.cSel + 1) & 0x3f
 	}
 }
 
 func (z *Renderer) SetNReg(adj uint8, incr bool, f float32) {
 	z.nReg[(z.nSel-adj)&0x3f] = f
 	if incr {
-		z.nSel++
+		z.nSel = (z.nSel + 1) & 0x3f
 	}
 }
 
